@@ -162,7 +162,14 @@ class Detector:
     @photon.setter
     def photon(self, obj: Photon) -> None:
         """Set the photon information for the detector."""
-        self.photon._array = obj._array
+        import xarray as xr
+
+        if obj._array is None:
+            self.photon.empty()
+        elif isinstance(obj._array, xr.DataArray):
+            self.photon.array_3d = obj._array
+        else:
+            self.photon.array = obj._array
 
     @property
     def scene(self) -> Scene:
